@@ -129,7 +129,7 @@ DOCS = [
    "O\to2\to1- a-", "U\tu1\ta e1 o1 g1", "U\t*\tu1 c", "X\tcustom\tfield\txx:i:1", "#\tc"],
   ["S\t1\t8\t*\tRC:i:5\tba:B:c,-1,1", "S\t2\t8\t*", "E\t10\t1+\t2+\t4\t8$\t0\t4\t1D3M1I", "O\t20\t1+ 10+ 2+", "O\t20\t2+", "U\t30\t20", "U\t30\t10\txx:Z:t"],
   ["S\ta\t5\tAAAAA\tjj:J:[\"x\", 1.5]", "S\tb\t5\t*", "F\tb\tr-\t1\t3\t0\t2\t*\tTS:i:2", "Y\tq", "Z\tfield ending in blank "],
-  ["H\taa:i:1", "H\taa:i:2", "H\taa:i:3\tbb:f:0.5", "S\ts\t1\tA"],
+  ["H\taa:i:1", "H\taa:i:2", "H\taa:i:3\tbb:f:0.5", "H\tca:A:c\thx:H:1AF0", "S\ts\t1\tA"],        # (header tags whose datatype is not the default of their value)
 ]
 ND = len(DOCS)
 ENTRY = ["string", "string_nl", "list", "file_lf", "file_crlf"]
